@@ -472,6 +472,8 @@ CONSTEXPR_USES = [
     # conversions and casts
     "feet(4).as(inches)", "feet(4).in(inches)", "inches(48).as<double>(feet)", "inches(50).coerce_in(feet)", "inches(50).coerce_as<std::int8_t>(feet)",
     "rep_cast<double>(feet(4))", "meters_pt(5).as(meters_pt / mag<100>())", "celsius_pt(20).coerce_in<int>(kelvins_pt)",
+    "will_conversion_overflow(feet(1.0f), meters)", "will_conversion_overflow(feet(1.0), meters)", "will_conversion_overflow(inches(2.0), feet)",
+    "will_conversion_overflow(feet(2.0f), inches)", "is_conversion_lossy(feet(1.0), meters)", "will_conversion_overflow<double>(feet(3), meters)",
     "is_conversion_lossy(feet(4), inches)", "will_conversion_overflow(feet(std::int8_t{40}), inches)", "will_conversion_truncate(inches(50), feet)",
     # math helpers that are constexpr
     "min(feet(4), inches(10))", "max(feet(4), inches(10))", "clamp(feet(4), inches(10), inches(20))", "int_pow<3>(meters(2))", "int_pow<-1>(meters(2.0))",
